@@ -351,6 +351,66 @@ def hp_subtree_case(rng):
     return "hp " + fmt_pool_keys(pool, keys) + " " + " ".join(ops)
 
 
+def hp_shape_case(rng):
+    """heaps of 4..15 distinct elements with a chosen shape (level order = push order), ONE removal aimed at a
+    position (second-to-last / last / root / a leaf or inner node whose replacement - the last element - has to go
+    UP or DOWN), then pushes of small (and a few arbitrary) elements BEFORE everything is popped: an element left
+    above its parent in the LAST slot is repaired by the very next pop and only shows after further pushes (or
+    in the array itself, which the harness inspects after every step)"""
+    n = rng.randint(4, 15)
+    vals = rng.sample(range(100, 1000), n)
+    shape = rng.choice(["left_small", "right_small", "random", "random"])
+    arr = [0] * (n + 1)                                   # 1-based level order
+    if shape == "random":
+        # a random valid heap: values in decreasing order handed out along a random frontier
+        vals.sort(reverse=True)
+        frontier, k = [1], 0
+        while frontier:
+            i = frontier.pop(rng.randrange(len(frontier)))
+            arr[i] = vals[k]
+            k += 1
+            frontier += [c for c in (2 * i, 2 * i + 1) if c <= n]
+    else:
+        side = {}
+        for i in range(2, n + 1):
+            j = i
+            while j > 3:
+                j //= 2
+            side[i] = j
+        small_side = 2 if shape == "left_small" else 3
+        a = [i for i in range(2, n + 1) if side[i] == small_side]
+        b = [i for i in range(2, n + 1) if side[i] != small_side]
+        vals.sort()
+        lo, hi, top = vals[:len(a)], vals[len(a):len(a) + len(b)], vals[-1]
+        arr[1] = top + 1000
+        for i, v in zip(a, sorted(lo, reverse=True)):
+            arr[i] = v
+        for i, v in zip(b, sorted(hi, reverse=True)):
+            arr[i] = v
+    nsmall = rng.randint(2, 5)
+    nextra = rng.randint(0, 3)
+    keys = arr[1:] + rng.sample(range(1, 90), nsmall) + rng.sample(range(1001, 3000), nextra)
+    pool = small_pool(rng, len(keys))
+    ops = ["p%d" % i for i in range(n)]
+    leaves = [i for i in range(1, n + 1) if 2 * i > n]
+    inner = [i for i in range(2, n + 1) if 2 * i <= n]
+    target = rng.choice(["second_last", "second_last", "last", "root", "leaf", "inner", "second_last"])
+    pos = {"second_last": n - 1, "last": n, "root": 1,
+           "leaf": rng.choice(leaves), "inner": rng.choice(inner) if inner else 1}[target]
+    ops.append("r%d" % (pos - 1))
+    if rng.random() < 0.25:
+        ops.append(rng.choice(["k", "s", "r%d" % rng.randrange(n)]))
+    later = list(range(n, n + nsmall)) + list(range(n + nsmall, n + nsmall + nextra))
+    rng.shuffle(later)
+    for k in later[:rng.randint(2, len(later))]:
+        ops.append(rng.choice(["p", "p", "p", "q"]) + str(k))
+        if rng.random() < 0.15:
+            ops.append("r%d" % rng.randrange(n))
+    if rng.random() < 0.3:
+        ops += ["o"] * rng.randint(1, 3) + ["p%d" % rng.randrange(len(keys))]
+    return "hp " + fmt_pool_keys(pool, keys) + " " + " ".join(ops)
+
+
 def hp_dup_case(rng):
     """many copies of few elements; remove must take out all copies (also the one moved into the slot just left)"""
     P = rng.randint(2, 5)
@@ -390,6 +450,7 @@ def generate(rng, tier):
             ("hp:ties", 50, lambda: hp_case(rng, True)),
             ("hp:subtree", 50, lambda: hp_subtree_case(rng)),
             ("hp:dups", 30, lambda: hp_dup_case(rng)),
+            ("hp:shape", 80, lambda: hp_shape_case(rng)),
             ("vc", 40, lambda: vc_case(rng))]
     cases = []
     for name, n, f in plan:
